@@ -31,6 +31,9 @@ FIXED = {  # key -> (property, commit subject prefix)
   "C38:compact-vs-full:runtime-tolerance-ignored": ("C38", "fix: compact solve rescales the current opt.tolerance"),
   "C04:contact_material_params:priority-direct-solref": ("C04", "fix: the higher-priority geom's solref"),
   "C04:plane_box:upper-corners-and-more-than-4-contacts": ("C04", "fix: plane-box constraint contacts are limited"),
+  "C17:exception:naconmax=0:ZeroDivisionError": ("C17", "fix: Newton solver does not divide by zero"),
+  "C16:exception-before-overflow-flag:naconmax=0:ZeroDivisionError": ("C16", "fix: Newton solver does not divide by zero"),
+  "C06:forward:efc_D-vs-mujoco:type0:sparse": ("C06", "fix: sparse connect/weld rows take their impedance weights"),
   "C04:capsule_capsule:in-gap-contact-dropped": ("C04", "fix: capsule-capsule keeps contacts inside the gap"),
   "C04:broadphase:explicit-pair-margin-ignored": ("C04", "fix: the broadphase filter does not reject explicit contact pairs"),
   "C18:filter:explicit-pair-margin-ignored": ("C18", "fix: the broadphase filter does not reject explicit contact pairs"),
